@@ -374,7 +374,7 @@ pub fn prop() -> Prop<Scenario> {
     Prop {
         id: "C03",
         level: "fault_enumeration",
-        rule: "scenario = (initial tree, history prefix of <=3 ops incl. interrupted backups/deletes, edits, options biased to small blocks/hunks) generated by proptest; inner domain enumerated per scenario: every crash point of the logged storage trace of the backup with a distinct outcome = 'storage frozen before mutating operation k' for every mutating k, plus for every write the torn variant (empty file left at the target); quick tier thins to <=80 evenly spaced points per scenario, thorough takes all. Oracle per point: archive opens; every previously complete version restores exactly; independent decoder finds no dangling/short address in any band; if the new head exists the version is listed, not closed, its own entries are a path-order prefix of the new source with the new bytes, its listing equals the stitching rule entry-for-entry and continues with the previous listing after the last recorded path, restore gives the recorded bytes for every file whose ancestors are directories; a follow-up backup succeeds and restores exactly. Non-trivial = crash after the first block write and before the tail write, or any torn write; counted per (scenario, point), distinct by construction. Fixed scale probe per run: a backup writing 10 015 index hunks, killed before the second index sub-directory is created and (torn) while its first hunk is written (thorough: also hunks 9 999, 10 001 and the tail); and a backup of one 272 MiB file between small ones killed before its last block write (thorough: and before the tail)",
+        rule: "scenario = (initial tree, history prefix of <=3 ops incl. interrupted backups/deletes, edits, options biased to small blocks/hunks) generated by proptest; inner domain enumerated per scenario: every crash point of the logged storage trace of the backup with a distinct outcome = 'storage frozen before mutating operation k' for every mutating k, plus for every write the torn variant (empty file left at the target); quick tier thins to <=80 evenly spaced points per scenario, thorough takes all. Oracle per point: archive opens; every previously complete version restores exactly; independent decoder finds no dangling/short address in any band; if the new head exists the version is listed, not closed, its own entries are a path-order prefix of the new source with the new bytes, its listing equals the stitching rule entry-for-entry and continues with the previous listing after the last recorded path, restore gives the recorded bytes for every file whose ancestors are directories; a follow-up backup succeeds and restores exactly. Non-trivial = crash after the first block write and before the tail write, or any torn write; counted per (scenario, point), distinct by construction. Fixed scale probe per run: a backup writing 10 015 index hunks, killed before the second index sub-directory is created and (torn) while its first hunk is written (thorough: also hunks 9 999, 10 001 and the tail); and a backup of one 272 MiB file between small ones killed before its last block write (thorough: and before the tail); since round 7 a third probe: a backup killed a quarter and a half of the way through writing its index over a previous version of 1300 three-entry hunks whose boundaries lie differently",
         assumptions: &[
             "a crash is modelled at transport-operation granularity: the storage becomes inert (every later operation fails without effect); stopping before a non-mutating operation leaves the same directory as stopping before the next mutating one, so only mutating points are enumerated",
             "torn write = zero-length file at the target; partial content and fsync ordering are not modelled",
